@@ -4,7 +4,7 @@ PROPS = {}
 NOT_APPLICABLE = {}
 HOOK_COMMITS = ["8fb4223", "3373e87"]
 
-DENSE_INV = ["TypeOK", "Refines", "EqRefines", "RowCount", "KeepOld", "NewDefault", "CloneEq", "Untouched", "IterOrder", "EmitReplay"]
+DENSE_INV = ["TypeOK", "Refines", "EqRefines", "RowCount", "KeepOld", "NewDefault", "CloneEq", "Untouched", "IterOrder", "EndsExact", "EmitReplay"]
 PROPS["C19"] = dict(
     mc=[
         dict(name="MC_Dense", module="MC_Dense", view="View", invariants=DENSE_INV,
@@ -225,9 +225,14 @@ def _scan_mc():
         dict(name="MC_Scanner_neg_first_unchecked", module="MC_Scanner", invariants=["MaxRefines"], expect_violation="MaxRefines",
              constants=dict(C=2, BlockSizes="{1, 2}", MaxLen=3, MaxM=2, Vals="{0, 2}",
                             SeqRowsOnly=True, BoundIndex=True, CheckFirst=False, BoundFrom='"scale"')),
+        # a matrix whose 8-bit rounding reorders two windows (MC_Scanner!WitnessMats): the repaired bound holds for every
+        # sequence, the originally coded bound (best_discrete = the candidate's 8-bit score) prunes the better window
+        dict(name="MC_Scanner_reorder", module="MC_Scanner", invariants=SCAN_INV, actions=SCAN_ACT, workers=8, timeout=3000,
+             constants=dict(C=2, BlockSizes="{1, 3}", MaxM=3, Vals="{0}", Mats="<- WitnessMats", Thrs="<- WitnessThrs", **SCAN_FIXED),
+             quick=dict(MaxLen=5), thorough=dict(MaxLen=7)),
         dict(name="MC_Scanner_neg_dscore_bound", module="MC_Scanner", invariants=["MaxRefines"], expect_violation="MaxRefines",
-             constants=dict(C=2, BlockSizes="{1}", MaxLen=4, MaxM=2, Vals="{0, 1, 3}",
-                            SeqRowsOnly=True, BoundIndex=True, CheckFirst=True, BoundFrom='"dscore"'), tiers=("thorough",)),
+             constants=dict(C=2, BlockSizes="{1, 3}", MaxLen=8, MaxM=3, Vals="{0}", Mats="<- WitnessMats", Thrs="<- WitnessThrs",
+                            Seqs="<- WitnessSeqs", SeqRowsOnly=True, BoundIndex=True, CheckFirst=True, BoundFrom='"dscore"')),
     ]
 
 SCAN_COMMON = dict(
@@ -370,6 +375,9 @@ def _dist_mc():
     return [dict(name="MC_Dist", module="MC_Dist", invariants=["ConvIsEnum", "TotalMass", "MemeOK"], actions=["Pick"], workers=2,
                  constants=dict(G=4), quick=dict(MaxM=2, CellVals="{0, 1, 6}"), thorough=dict(MaxM=2, CellVals="{0, 1, 3, 6}"))]
 PROPS["C11"] = dict(mc=_dist_mc(), record=True, trace="Trace_C11", shards=12,
+    # the same guarantee through the Python bindings (ScoringMatrix.pvalue / .score, also on a reverse complement taken
+    # after the forward distribution was cached): recorded by the embedded interpreter, validated by Trace_Py
+    also_record=[dict(package="lmpyconform", mode="C11", trace="Trace_Py", shards=2, tag="py")],
     level_text="D-layer: the exact score distribution of a background-distributed word as integer numerators over bd^M "
                "(convolution, cross-checked against enumeration of all words in the bounded model). I-layer: the MEME-style "
                "table of dist.rs (offset, scale, rounded integer matrix, pdf, survival function, index look-up) in exact "
@@ -379,7 +387,7 @@ PROPS["C11"] = dict(mc=_dist_mc(), record=True, trace="Trace_C11", shards=12,
                "grid step, below min, above max, and p -> score -> p round trips are validated by TLC against the exact tail.",
     level_note="Matrices on the 1/4 grid only (exact scores); non-grid log-odds matrices are not decided (numeric accuracy is "
                "outside the technique). 'M/2+1' is read as ceil(M/2)+1 so that the check never demands more than the "
-               "statement. Decimal backgrounds: numerators rounded, one unit of slack. Python pvalue/score via C17. "
+               "statement. Decimal backgrounds: numerators rounded, one unit of slack. The Python bindings' pvalue / score (incl. the cached distribution of a reverse-complemented matrix) are recorded too and validated by Trace_Py's py_pvalue rule (same bracket). "
                "Trusted: TLC, Json module.",
     rule="impl->spec: one event per (matrix, background); distinct_nontrivial = distinct (matrix, background).",
     assumptions=["finite non-wildcard entries, wildcard column -inf with background frequency 0"])
@@ -408,7 +416,18 @@ PROPS["C12"] = dict(mc=_tfm_mc(), record=True, trace="Trace_Tfm", shards=12,
 def _tfmscore_mc():
     return _dist_mc() + [
         dict(name="MC_TfmScore", module="MC_TfmScore", invariants=["Refines"], coverage=False, workers=6,
-             constants=dict(NarrowMargin=False), quick=dict(MaxM=2, CellVals="{0, 1, 3, 6}"), thorough=dict(MaxM=3, CellVals="{0, 1, 6}")),
+             constants=dict(NarrowMargin=False, OffsetWindow=False, G=4, K=3), quick=dict(MaxM=2, CellVals="{0, 1, 3, 6}"), thorough=dict(MaxM=3, CellVals="{0, 1, 6}")),
+        dict(name="MC_TfmScore_signed", module="MC_TfmScore", invariants=["Refines"], coverage=False, workers=6,
+             constants=dict(NarrowMargin=False, OffsetWindow=False, G=16, K=3),
+             quick=dict(MaxM=2, CellVals="<- SignedD"), thorough=dict(MaxM=3, CellVals="<- SignedF")),
+        # the recorded execution that exposed the displaced refinement window (M = 5, DNA): repaired iterator holds,
+        # the iterator as originally coded (window carried in offset units) violates the bound at g = 1/100
+        dict(name="MC_TfmScore_witness", module="MC_TfmScore", invariants=["Refines"], coverage=False, workers=4,
+             constants=dict(NarrowMargin=False, OffsetWindow=False, G=16, K=5, MaxM=5, CellVals="{0}",
+                            Mats="<- WitnessMats", Bgs="<- WitnessBgs", Pns="<- WitnessPns")),
+        dict(name="MC_TfmScore_neg_offset_window", module="MC_TfmScore", invariants=["Refines"], expect_violation="Refines", coverage=False, workers=4,
+             constants=dict(NarrowMargin=False, OffsetWindow=True, G=16, K=5, MaxM=5, CellVals="{0}",
+                            Mats="<- WitnessMats", Bgs="<- WitnessBgs", Pns="<- WitnessPns")),
     ]
 PROPS["C13"] = dict(mc=_tfmscore_mc(), record=True, trace="Trace_Tfm", shards=14,
     level_text="Every refinement step of TfmPvalue::approximate_score on real grid matrices (M = 2..6, three background "
@@ -417,6 +436,8 @@ PROPS["C13"] = dict(mc=_tfmscore_mc(), record=True, trace="Trace_Tfm", shards=14
                "the reported granularity.",
     level_note="I-layer: lookup_score and the first two steps of the refinement iterator (window margins ceil(error_max + 0.5)) "
                "are transcribed in Tfm.tla and model-checked (MC_TfmScore) to satisfy both clauses for every small matrix, "
+               "signed 1/16-grid matrices included; the recorded execution that exposed the displaced refinement window of the "
+               "original iterator is kept as a witness configuration (repaired window holds, window as coded is the negative control); "
                "background, row permutation and p = k / (2 bd^M). Fidelity was compared on recorded queries: identical "
                "thresholds for dyadic backgrounds; for decimal backgrounds the f64 sums decide exact ties (sum == p) "
                "differently from exact arithmetic - both outcomes satisfy the property - so the comparison is not part of the "
